@@ -61,8 +61,10 @@ CLASSES = {"string", "string-valid", "optional-absent", "null-allowed", "valid"}
 def run(ctx):
     ctx.proof_step(PROPS_FILE)
     n = 30 if ctx.tier == "quick" else 400
-    cases = build_cases(ctx, len(systematic()) + n, ["string"], CLASSES | {"type", "null-not-allowed", "required"}, "c06x",
-                        gen_kwargs={"allow_formats": False}, extra_schemas=systematic(), docs_per=2 if ctx.tier == "quick" else 4)
+    from vlib.pairwise import pairwise
+    sysm = systematic() + [r for _, r in pairwise(types=["string"])]
+    cases = build_cases(ctx, len(sysm) + n, ["string"], CLASSES | {"type", "null-not-allowed", "required"}, "c06x",
+                        gen_kwargs={"allow_formats": False}, extra_schemas=sysm, docs_per=2 if ctx.tier == "quick" else 4)
     run_cases(ctx, cases, "c06")
     evaluate(ctx, cases, CLASSES, {"string": "invalid", "string-valid": "valid", "optional-absent": "by-spec", "null-allowed": "valid", "valid": "valid"},
              "string constraints")
